@@ -31,6 +31,7 @@ var c02Blocks = []string{
 	`<div style="DISPLAY: none"><p>%h</p></div><p>%a <span style="VISIBILITY:hidden">%h</span></p>`,
 	`<p>%a <span style="color:red; visibility:hidden">%h</span> <font style="margin:0;display:none" color="red">%h</font></p>`,
 	`<figure><img src="g.png"><figcaption>%a<br>%b <span hidden>%h</span><div>%c</div></figcaption></figure>`,
+	`<p>%a x<b>%b</b> <i>y</i>%c</p>`,
 	`<div>%a <table><caption>%b</caption><thead><tr><th>h</th></tr></thead><tr><td>%c</td></tr></table> z%a</div>`,
 }
 
@@ -47,6 +48,7 @@ var c02Visible = [][]string{
 	{"a"},
 	{"a"},
 	{"a", "b", "c"},
+	{"a", "xb", "yc"},
 	{"a", "b", "c", "za"},
 }
 
